@@ -111,6 +111,7 @@ class Builder:
                         lib=u.lib, records=u.records)
         tr.ctor_decls = {cn: d for cn, d in decls.items() if d['kind'] == 'CXXConstructorDecl'}
         tr.instantiate = list(u.instantiate)
+        tr.abstract_mul = getattr(u, 'abstract_mul', False)
         tr.lib_rx = [(re.compile(k[1:]), v) for k, v in u.lib.items() if k.startswith('~')]
         for g in u.globals:
             self.b_globals = getattr(self, 'b_globals', {})
@@ -196,7 +197,7 @@ class Builder:
             raise ExtractError('frame: cannot compare objects of type ' + ct)
         if k[0] == 'vec':
             g = 'verif_fk%d' % len(ghost)
-            ghost.append('unsigned long %s;' % g)
+            ghost.append('c_ulong %s;' % g)
             return '(%s.size == %s.size && (%s >= %s.size || %s))' % (
                 a, b, g, a, self.eq(k[1], '%s.data[%s]' % (a, g), '%s.data[%s]' % (b, g), ghost))
         if k[0] == 'arr':
